@@ -17,17 +17,21 @@
    P1 every completed run is found with its last status; P2 the interrupted run is found with a status no older than the last
    acknowledged one; P3 latest answers without error, never older than acknowledged; P4 recent n lists no run twice and hides
    no run with acknowledged data.
-   What holds (the `_partial` theorems): open / write / update / chtimes are ATOMIC under a kill - every query is answered as the
-   run map before or after the operation says (P1-P4, except that "after Open" has a newest run without status: F7a);
-   close: find answers as before in every crash state (P1, P2), and outside the twin window everything is atomic;
+   Model of the REPAIRED store (3aa388e: readers skip files without a parseable status; e6d6379, 8ffc003, e2affa2 as for C06).
+   What holds: open / write / update / chtimes are ATOMIC under a kill - every query is answered as the run map before or after the
+   operation says (P1-P4; since 3aa388e this includes the crash between Open and the first write: the run without status is simply not
+   listed - F7a is repaired, C07_fixed_empty_newest);
+   close: find answers as before in every crash state (P1, P2), and ALL queries answer as before or after in every crash state except
+   those in which the compacted twin already holds a complete status line while the original still exists (F7b, C07_refuted_compaction_twin);
    retention: every run not up for removal is found intact (P1); rename: every run is found under exactly one name (P1).
-   What the faithful model refutes (the C07_refuted theorems): F7a, F7b, F7c. *)
-From Coq Require Import List String ZArith.
+   Still refuted: F7b (as narrowed above) and F7c (an update accepted after a torn write is glued to the torn tail).
+   Premises: those of C06 (names_okb, closedb, premises) for the trace up to and including the interrupted operation. *)
+From Coq Require Import List String ZArith Bool Arith.
 Import ListNotations.
 From BD.Hist Require Import GoMatch Model SModel Spec ProofsString ProofsRefine ProofsTop ProofsC06 ProofsC06Ex ProofsC07 ProofsC07Ex.
 
 (* open / write / update / chtimes: EVERY crash state answers EVERY query of a fresh process as the run map BEFORE or AFTER *)
-Theorem C07_crash_atomic_partial :
+Theorem C07_crash_atomic :
   forall (loc : string) (dirhash : string -> string) (D days : list string) (K : list skey),
   names_okb loc dirhash D days K = true -> closedb D K = true ->
   forall (es : list ev) (o : op) (fs' : fs),
@@ -35,11 +39,11 @@ Theorem C07_crash_atomic_partial :
   In fs' (crash_states loc dirhash (y_h (yrun loc dirhash sys_init es)) o) ->
   answers0 loc dirhash D days fs' (sp_state es) \/ answers0 loc dirhash D days fs' (sp_state (es ++ [EOp o])).
 Proof. exact crash_atomic. Qed.
-Print Assumptions C07_crash_atomic_partial.
+Print Assumptions C07_crash_atomic.
 
 (* close with compaction: find (every run, every DAG) answers as before the close in EVERY crash state - completed runs intact
-   (P1), the run being closed found with its last acknowledged status (P2); and unless the compacted twin coexists with the
-   original, every query answers as before or after *)
+   (P1), the run being closed found with its last acknowledged status (P2); and unless the compacted twin already PARSES while the
+   original still exists (twin_window0), every query answers as before or after *)
 Theorem C07_crash_close_partial :
   forall loc dirhash D days K, names_okb loc dirhash D days K = true -> closedb D K = true ->
   forall es now fs', premises loc dirhash D days K (es ++ [EOp (OClose now)]) ->
@@ -75,21 +79,27 @@ Proof. exact crash_rename0. Qed.
 Print Assumptions C07_crash_rename_partial.
 
 (* ---- refuted on the faithful model (defects of the pinned code) ---------------------------------------------------------- *)
-(* F7a (P3, P4): kill between Open's create and the first write - empty newest file: latest = error, recent 1 = nothing *)
-Theorem C07_refuted_empty_newest :
-  exists es o fs', In fs' (crash_states loc dh (y_h (yrun loc dh sys_init es)) o)
-    /\ sp_latest (sp_state es) a None = LOk q1 /\ sp_recent (sp_state es) a 1 = [q1]
-    /\ snd (q_latest loc dh [] fs' a None) = LErr /\ snd (q_recent loc dh [] fs' a 1) = [].
-Proof. exact refuted_empty_newest. Qed.
-Print Assumptions C07_refuted_empty_newest.
-(* F7b (P4): kill inside the compaction - the run is listed twice, or the empty twin takes a slot: the older run is hidden *)
+(* F7a (P3, P4) - before fix 3aa388e the model answered latest = error, recent 1 = nothing in the crash state with the empty newest file *)
+Example C07_fixed_empty_newest :
+  sp_latest (sp_state es0) a None = LOk q1 /\ sp_recent (sp_state es0) a 1 = [q1]
+  /\ List.length (crash_states loc dh (y_h (yrun loc dh sys_init es0)) oOpen) = 3
+  /\ forallb (fun fs' => match snd (q_latest loc dh [] fs' a None), snd (q_recent loc dh [] fs' a 1) with
+                         | LOk p, [p'] => String.eqb (p_req p) "req-aaaa-1" && String.eqb (p_req p') "req-aaaa-1" && Nat.eqb (p_tag p) 1
+                         | _, _ => false end)
+             (crash_states loc dh (y_h (yrun loc dh sys_init es0)) oOpen) = true.
+Proof. exact fixed_empty_newest. Qed.
+(* F7b (P4), still open: kill after the twin's status line is complete and before the original is unlinked - the run is listed twice *)
 Theorem C07_refuted_compaction_twin :
-  exists es now fs1 fs2, In fs1 (crash_states loc dh (y_h (yrun loc dh sys_init es)) (OClose now))
-    /\ In fs2 (crash_states loc dh (y_h (yrun loc dh sys_init es)) (OClose now))
+  exists es now fs2, In fs2 (crash_states loc dh (y_h (yrun loc dh sys_init es)) (OClose now))
     /\ sp_recent (sp_state es) a 2 = [q2; q1] /\ sp_recent (sp_state (es ++ [EOp (OClose now)])) a 2 = [q2; q1]
-    /\ snd (q_recent loc dh [] fs1 a 2) = [q2] /\ snd (q_recent loc dh [] fs2 a 2) = [q2; q2].
+    /\ snd (q_recent loc dh [] fs2 a 2) = [q2; q2].
 Proof. exact refuted_compaction_twin. Qed.
 Print Assumptions C07_refuted_compaction_twin.
+(* ... while an empty or torn twin is invisible now (before 3aa388e it took a slot: recent 2 = [q2]) *)
+Example C07_empty_twin_invisible :
+  snd (q_recent loc dh [] (nth 2 (crash_states loc dh (y_h (yrun loc dh sys_init es1)) (OClose 6%Z)) fs_empty) a 2) = [q2; q1]
+  /\ snd (q_recent loc dh [] (nth 3 (crash_states loc dh (y_h (yrun loc dh sys_init es1)) (OClose 6%Z)) fs_empty) a 2) = [q2; q1].
+Proof. exact empty_twin_invisible. Qed.
 (* F7c: an update accepted after a torn write is glued to the torn tail and lost *)
 Theorem C07_refuted_glued_update :
   exists es o fs' upd, In fs' (crash_states loc dh (y_h (yrun loc dh sys_init es)) o)
